@@ -165,7 +165,7 @@ main(int argc, char *argv[])
 	fprintf(logf, "B %lld\n", (long long) OVNI_MAX_EV_BUF);
 	ovni_version_check();
 	ovni_proc_init(1, "L", 777);
-	ovni_thread_init(778);
+	ovni_thread_init(777);	/* the initial thread: its id is the process id */
 	ovni_add_cpu(0, 0);
 	ovni_mark_type(0, OVNI_MARK_STACK, "m0");
 	ovni_mark_type(1, 0, "m1");
@@ -241,7 +241,7 @@ main(int argc, char *argv[])
 			}
 		} else if (op[0] == 'X') {
 			struct ovni_ev ev = {0};
-			int32_t cpu = 0, tid = 778;
+			int32_t cpu = 0, tid = 777;
 			uint64_t tag = 0;
 			ovni_ev_set_clock(&ev, ovni_clock_now());
 			ovni_ev_set_mcv(&ev, "OHx");
